@@ -276,6 +276,28 @@ def janetLoop (cfg : Cfg) : St → List StepIn → Option St
     | none => none
     | some s' => janetLoop cfg s' is
 
+/-! ### the finaliser of a process handle (os.c `janet_proc_gc`)
+
+`if (!(flags & (WAITED | ALLOW_ZOMBIE))) { kill(pid, SIGKILL); if (!(flags & WAITING)) waitpid(pid, &status, opts); }`
+The handle is the only holder of the pid.  SIGKILL is delivered asynchronously: right after `kill` a child that was running
+is (in general) still running, so a non-blocking `waitpid` returns 0 and the child later turns into a zombie nobody can reap. -/
+
+inductive Child
+  | running   -- alive
+  | zombie    -- exited, not yet waited for
+  | reaped    -- waited for: no process table entry left
+  deriving DecidableEq, Repr
+
+/-- state of the child after the finaliser of its (never waited, not being waited) handle ran -/
+def procGc (blockingWait : Bool) : Child → Child
+  | .reaped => .reaped
+  | .zombie => .reaped                                           -- waitpid returns at once, with or without WNOHANG
+  | .running => if blockingWait then .reaped else .zombie        -- blocking: waits for the kill to take effect
+
+/-- children left in the process table after collecting `handles` dropped handles -/
+def leftBehind (blockingWait : Bool) (handles : List Child) : Nat :=
+  ((handles.map (procGc blockingWait)).filter (· ≠ .reaped)).length
+
 /-! ### generated tables the model mirrors -/
 
 def doneSpec : List String :=
